@@ -57,6 +57,7 @@ def run(ctx: Ctx) -> None:
         ctx.file_used(REPO / rs.file_for(suffix))
 
     check_opcode_tables(ctx, py, rs)
+    check_single_opcode_table(ctx, py)
     check_pre_tables(ctx, py, rs)
     check_single_addressable(ctx, py, rs)
     check_registers(ctx, py, rs)
@@ -73,6 +74,45 @@ def run(ctx: Ctx) -> None:
 
 
 # ---------------------------------------------------------------------------
+def check_single_opcode_table(ctx: Ctx, py: PyProgram) -> None:
+    """Every consumer decodes with *the* opcode table: outside its home module the table is only ever imported or aliased.  A
+    module that builds its own dict from it (`{**OPCODES, k: v}`, `dict(OPCODES, ..)`, a copy that is then updated) has forked the
+    table: decoder, hooks, emulator and the Rust table no longer say the same thing about the keys it changes."""
+    n = 0
+    for rel, m in sorted(py.modules.items()):
+        if rel == isa.OPTABLE or "/test" in rel or rel.startswith("tests/") or "test_" in rel.rsplit("/", 1)[-1]:
+            continue
+        aliases = set()
+        for st in ast.walk(m.tree):
+            if isinstance(st, ast.ImportFrom) and st.module and st.module.endswith("opcode_table"):
+                for a in st.names:
+                    if a.name == "OPCODES":
+                        aliases.add(a.asname or a.name)
+        if not aliases:
+            r0 = py.resolve_symbol(m, "OPCODES")
+            if r0 is not None and r0[0].rel == isa.OPTABLE:
+                aliases.add("OPCODES")
+        if not aliases:
+            continue
+        n += 1
+        for x in ast.walk(m.tree):
+            forked = None
+            if isinstance(x, ast.Dict) and any(k is None and isinstance(v, ast.Name) and v.id in aliases for k, v in zip(x.keys, x.values)) and any(k is not None for k in x.keys):
+                forked = x
+            if isinstance(x, ast.Call) and isinstance(x.func, ast.Name) and x.func.id == "dict" and x.args and isinstance(x.args[0], ast.Name) and x.args[0].id in aliases and (len(x.args) > 1 or x.keywords):
+                forked = x
+            if isinstance(x, ast.Call) and isinstance(x.func, ast.Attribute) and x.func.attr in ("update", "pop", "setdefault", "__setitem__") and isinstance(x.func.value, ast.Name) and x.func.value.id in aliases:
+                forked = x
+            if isinstance(x, (ast.Assign, ast.AugAssign, ast.Delete)):
+                for t in (x.targets if not isinstance(x, ast.AugAssign) else [x.target]):
+                    if isinstance(t, ast.Subscript) and isinstance(t.value, ast.Name) and t.value.id in aliases:
+                        forked = x
+            if forked is not None:
+                ctx.violation("C17/opcode-table-single", key_of(rel, "module", "own opcode table derived from OPCODES"),
+                              f"{rel}:{forked.lineno} builds or edits its own opcode table (`{unparse(forked)[:90]}`): this consumer decodes some opcodes differently from the decoder, the hooks and the Rust table", f"{rel}:{forked.lineno}")
+    ctx.instance("C17/opcode-table-single", "modules that import the opcode table: none derives an edited copy of it", n, 2)
+
+
 def check_opcode_tables(ctx: Ctx, py: PyProgram, rs: RustProgram) -> None:
     prow = isa.py_rows(py)
     rrow = isa.rs_rows(rs)
@@ -257,6 +297,16 @@ def check_registers(ctx: Ctx, py: PyProgram, rs: RustProgram) -> None:
         ctx.violation("C17/register-model", f"{isa.EMU_PY}::Registers.get/set::PC_MASK-set",
                       f"Registers.get masks {sorted(masked_sets[0])} to 20 bits but Registers.set masks {sorted(masked_sets[1])}", isa.EMU_PY)
     masked20 = masked_sets[1]
+    # the lifter keeps its own list of 20-bit pointer registers (INC/DEC/ADD/SUB mask their result with it): a further copy
+    try:
+        lift20 = {str(getattr(x, "name", x)) for x in py.value(isa.INSTR_PY, "REG3_20BIT_REGS")}
+    except Exception as e:  # noqa: BLE001
+        raise AnalysisError(f"{isa.INSTR_PY}: REG3_20BIT_REGS not evaluable: {e}")
+    reg20 = {str(getattr(x, "name", x)) for x in masked20} - {"PC"}
+    if lift20 != reg20:
+        ctx.violation("C17/register-model", f"{isa.INSTR_PY}::REG3_20BIT_REGS",
+                      f"the lifter's list of 20-bit registers is {sorted(lift20)} but the register file masks {sorted(reg20)} (besides PC) to 20 bits: "
+                      f"INC/DEC/ADD/SUB of {sorted(lift20 ^ reg20)} compute result and Z at another width than the register holds", isa.INSTR_PY)
 
     def py_mask(name: str) -> int:
         if name in subinfo:
